@@ -33,6 +33,9 @@ class ProgGen:
 
     def __init__(self, rng: random.Random, n_funcs=None, clean=False, allow_cycles=True):
         self.rng = rng
+        # in some programs every function draws its parameter names from one small pool, so that a
+        # caller's argument names coincide with (a permutation of) the callee's parameter names
+        self.shared_names = rng.random() < 0.3
         self.n = n_funcs or rng.randint(2, 7)
         self.clean = clean          # stay inside the fragment where C03 is a theorem
         self.allow_cycles = allow_cycles and not clean
@@ -41,6 +44,8 @@ class ProgGen:
         r = self.rng
         n = r.randint(1, 3)
         names = [f"p{i}{c}" for c in "abc"[:n]]
+        if self.shared_names:
+            names = r.sample(["left", "right", "item", "other"], n)
         kinds = sorted(r.choice(["po", "ar", "ar", "ar", "ko"]) for _ in names)
         order = {"po": 0, "ar": 1, "ko": 2}
         kinds.sort(key=order.get)
